@@ -13,6 +13,9 @@ All reals, all branches of the traced decision trees; for the two-valued pair (E
 about the branch the code selects (the positive square root).  The only division whose denominator is
 not excluded by an earlier check on the same path is `…/pnu` in the pair (λ, ν): see
 `EPV.C15.finding_modLNu_division_by_zero` (FindingModuli.lean).
+
+The proofs of the `_ok` statements live in `EPV/Lemmas/BlakeModuli.lean` (they are shared with the C20
+acceptance theorems); they are restated here as the property theorems.
 -/
 import EPV.Gen.BlakeModLG
 import EPV.Gen.BlakeModLE
@@ -31,6 +34,7 @@ import EPV.Gen.BlakeModNuM
 import EPV.Gen.BlakeModKM
 import EPV.Spec.Blake
 import EPV.Lemmas.Blake
+import EPV.Lemmas.BlakeModuli
 import EPV.Tactics
 
 set_option linter.all false
@@ -39,20 +43,12 @@ open EPV EPV.Gen EPV.Spec.Blake EPV.Blake
 
 namespace EPV.C15
 
-/-- clear denominators; the side goals `d ≠ 0` are discharged from sign facts in the context -/
-macro "fsimp" : tactic => `(tactic| field_simp (disch := first | assumption | linarith | positivity))
-
 /-- pair (λ, G): an accepting call returns one positive-definite isotropic material that reproduces the
 two supplied values -/
 theorem modLG_ok (p : BlakeModLG.P) (h : BlakeModLG.outcome p = .ok) :
     IsoMaterial (BlakeModLG.lame_mod p) (BlakeModLG.shear_mod p) (BlakeModLG.youngs_mod p) (BlakeModLG.poisson_ratio p) (BlakeModLG.bulk_mod p) (BlakeModLG.long_mod p)
-      ∧ BlakeModLG.lame_mod p = p.lame_mod ∧ BlakeModLG.shear_mod p = p.shear_mod := by
-  epv_on_leaves (
-    simp only [epv_cond] at *
-    simp only [epv_leaf]
-    simp only [not_le, not_lt] at *
-    have h1 : 0 < p.lame_mod + p.shear_mod := by linarith
-    refine ⟨IsoMaterial.of_mul ?_ ?_ ?_ ?_ ?_ ?_, ?_, ?_⟩ <;> first | trivial | assumption | linarith | ring1 | (fsimp <;> ring1))
+      ∧ BlakeModLG.lame_mod p = p.lame_mod ∧ BlakeModLG.shear_mod p = p.shear_mod :=
+  EPV.Blake.modLG_ok p h
 
 /-- pair (λ, G): every other path of the traced call ends in `raise ValueError` -/
 theorem modLG_raise (p : BlakeModLG.P) (h : BlakeModLG.outcome p ≠ .ok) :
@@ -69,17 +65,8 @@ example : BlakeModLG.outcome { lame_mod := 25, shear_mod := 25 } = .ok := by
 two supplied values -/
 theorem modLE_ok (p : BlakeModLE.P) (h : BlakeModLE.outcome p = .ok) :
     IsoMaterial (BlakeModLE.lame_mod p) (BlakeModLE.shear_mod p) (BlakeModLE.youngs_mod p) (BlakeModLE.poisson_ratio p) (BlakeModLE.bulk_mod p) (BlakeModLE.long_mod p)
-      ∧ BlakeModLE.lame_mod p = p.lame_mod ∧ BlakeModLE.youngs_mod p = p.youngs_mod := by
-  epv_on_leaves (
-    simp only [epv_cond] at *
-    simp only [epv_leaf]
-    simp only [not_le, not_lt] at *
-    generalize hR : (p.youngs_mod ^ (2 : ℕ) + 9 * p.lame_mod ^ (2 : ℕ) + 2 * p.youngs_mod * p.lame_mod) ^ ((1 : ℝ) / 2) = R at *
-    have hR0 : 0 ≤ R := hR ▸ rpow_half_nonneg _
-    have hR2 : R * R = p.youngs_mod ^ (2 : ℕ) + 9 * p.lame_mod ^ (2 : ℕ) + 2 * p.youngs_mod * p.lame_mod :=
-      hR ▸ rpow_half_mul_self (by nlinarith [sq_nonneg (p.youngs_mod + p.lame_mod), sq_nonneg p.lame_mod])
-    have h1 : 0 < p.youngs_mod + p.lame_mod + R := by linarith
-    refine ⟨IsoMaterial.of_mul ?_ ?_ ?_ ?_ ?_ ?_, ?_, ?_⟩ <;> first | trivial | assumption | linarith | ring1 | (fsimp <;> ring1) | linear_combination (-1 / 8 : ℝ) * hR2)
+      ∧ BlakeModLE.lame_mod p = p.lame_mod ∧ BlakeModLE.youngs_mod p = p.youngs_mod :=
+  EPV.Blake.modLE_ok p h
 
 /-- pair (λ, E): every other path of the traced call ends in `raise ValueError` -/
 theorem modLE_raise (p : BlakeModLE.P) (h : BlakeModLE.outcome p ≠ .ok) :
@@ -98,19 +85,8 @@ example : BlakeModLE.outcome { lame_mod := 25, youngs_mod := 125/2 } = .ok := by
 two supplied values -/
 theorem modLNu_ok (p : BlakeModLNu.P) (h : BlakeModLNu.outcome p = .ok) :
     IsoMaterial (BlakeModLNu.lame_mod p) (BlakeModLNu.shear_mod p) (BlakeModLNu.youngs_mod p) (BlakeModLNu.poisson_ratio p) (BlakeModLNu.bulk_mod p) (BlakeModLNu.long_mod p)
-      ∧ BlakeModLNu.lame_mod p = p.lame_mod ∧ BlakeModLNu.poisson_ratio p = p.poisson_ratio := by
-  epv_on_leaves (
-    simp only [epv_cond] at *
-    simp only [epv_leaf]
-    simp only [not_le, not_lt] at *
-    have hν : 0 < p.poisson_ratio := by
-      by_contra hc
-      rw [not_lt] at hc
-      have h := ‹0 < p.lame_mod * (1 - 2 * p.poisson_ratio) / (2 * p.poisson_ratio)›
-      have : p.lame_mod * (1 - 2 * p.poisson_ratio) / (2 * p.poisson_ratio) ≤ 0 :=
-        div_nonpos_of_nonneg_of_nonpos (mul_nonneg (by linarith) (by linarith)) (by linarith)
-      linarith
-    refine ⟨IsoMaterial.of_mul ?_ ?_ ?_ ?_ ?_ ?_, ?_, ?_⟩ <;> first | trivial | assumption | linarith | ring1 | (fsimp <;> ring1))
+      ∧ BlakeModLNu.lame_mod p = p.lame_mod ∧ BlakeModLNu.poisson_ratio p = p.poisson_ratio :=
+  EPV.Blake.modLNu_ok p h
 
 /-- pair (λ, ν): every other path of the traced call ends in `raise ValueError` (for ν ≠ 0: at ν = 0 the code divides
 by `pnu` before any check that could reject — see `finding_modLNu_division_by_zero`) -/
@@ -128,13 +104,8 @@ example : BlakeModLNu.outcome { lame_mod := 25, poisson_ratio := 1/4 } = .ok := 
 two supplied values -/
 theorem modLK_ok (p : BlakeModLK.P) (h : BlakeModLK.outcome p = .ok) :
     IsoMaterial (BlakeModLK.lame_mod p) (BlakeModLK.shear_mod p) (BlakeModLK.youngs_mod p) (BlakeModLK.poisson_ratio p) (BlakeModLK.bulk_mod p) (BlakeModLK.long_mod p)
-      ∧ BlakeModLK.lame_mod p = p.lame_mod ∧ BlakeModLK.bulk_mod p = p.bulk_mod := by
-  epv_on_leaves (
-    simp only [epv_cond] at *
-    simp only [epv_leaf]
-    simp only [not_le, not_lt] at *
-    have h1 : 0 < 3 * p.bulk_mod - p.lame_mod := by linarith
-    refine ⟨IsoMaterial.of_mul ?_ ?_ ?_ ?_ ?_ ?_, ?_, ?_⟩ <;> first | trivial | assumption | linarith | ring1 | (fsimp <;> ring1))
+      ∧ BlakeModLK.lame_mod p = p.lame_mod ∧ BlakeModLK.bulk_mod p = p.bulk_mod :=
+  EPV.Blake.modLK_ok p h
 
 /-- pair (λ, K): every other path of the traced call ends in `raise ValueError` -/
 theorem modLK_raise (p : BlakeModLK.P) (h : BlakeModLK.outcome p ≠ .ok) :
@@ -151,13 +122,8 @@ example : BlakeModLK.outcome { lame_mod := 25, bulk_mod := 125/3 } = .ok := by
 two supplied values -/
 theorem modLM_ok (p : BlakeModLM.P) (h : BlakeModLM.outcome p = .ok) :
     IsoMaterial (BlakeModLM.lame_mod p) (BlakeModLM.shear_mod p) (BlakeModLM.youngs_mod p) (BlakeModLM.poisson_ratio p) (BlakeModLM.bulk_mod p) (BlakeModLM.long_mod p)
-      ∧ BlakeModLM.lame_mod p = p.lame_mod ∧ BlakeModLM.long_mod p = p.long_mod := by
-  epv_on_leaves (
-    simp only [epv_cond] at *
-    simp only [epv_leaf]
-    simp only [not_le, not_lt] at *
-    have h1 : 0 < p.long_mod + p.lame_mod := by linarith
-    refine ⟨IsoMaterial.of_mul ?_ ?_ ?_ ?_ ?_ ?_, ?_, ?_⟩ <;> first | trivial | assumption | linarith | ring1 | (fsimp <;> ring1))
+      ∧ BlakeModLM.lame_mod p = p.lame_mod ∧ BlakeModLM.long_mod p = p.long_mod :=
+  EPV.Blake.modLM_ok p h
 
 /-- pair (λ, M): every other path of the traced call ends in `raise ValueError` -/
 theorem modLM_raise (p : BlakeModLM.P) (h : BlakeModLM.outcome p ≠ .ok) :
@@ -174,29 +140,8 @@ example : BlakeModLM.outcome { lame_mod := 25, long_mod := 75 } = .ok := by
 two supplied values -/
 theorem modGE_ok (p : BlakeModGE.P) (h : BlakeModGE.outcome p = .ok) :
     IsoMaterial (BlakeModGE.lame_mod p) (BlakeModGE.shear_mod p) (BlakeModGE.youngs_mod p) (BlakeModGE.poisson_ratio p) (BlakeModGE.bulk_mod p) (BlakeModGE.long_mod p)
-      ∧ BlakeModGE.shear_mod p = p.shear_mod ∧ BlakeModGE.youngs_mod p = p.youngs_mod := by
-  epv_on_leaves (
-    simp only [epv_cond] at *
-    simp only [epv_leaf]
-    simp only [not_le, not_lt] at *
-    have hG : 0 < p.shear_mod := by linarith
-    have hE : 0 < p.youngs_mod := by linarith
-    have hlt : p.youngs_mod < 3 * p.shear_mod := by
-      have h2G : 0 < 2 * p.shear_mod := by linarith
-      have := (div_lt_iff₀ h2G).mp (by linarith : p.youngs_mod / (2 * p.shear_mod) < 3 / 2)
-      linarith
-    have h1 : 3 * p.shear_mod - p.youngs_mod ≠ 0 := by intro h0; linarith
-    have h1p : 0 < 3 * p.shear_mod - p.youngs_mod := by linarith
-    have hG0 : p.shear_mod ≠ 0 := ne_of_gt hG
-    have e1 : 3 * (p.shear_mod * (p.youngs_mod - 2 * p.shear_mod) / (3 * p.shear_mod - p.youngs_mod)) + 2 * p.shear_mod
-        = p.shear_mod * p.youngs_mod / (3 * p.shear_mod - p.youngs_mod) := by fsimp; ring1
-    have e2 : p.shear_mod * (p.youngs_mod - 2 * p.shear_mod) / (3 * p.shear_mod - p.youngs_mod) + p.shear_mod
-        = p.shear_mod * p.shear_mod / (3 * p.shear_mod - p.youngs_mod) := by fsimp; ring1
-    have h2 : p.shear_mod * (p.youngs_mod - 2 * p.shear_mod) / (3 * p.shear_mod - p.youngs_mod) + p.shear_mod ≠ 0 := by
-      rw [e2]; positivity
-    have h3 : 0 < 3 * (p.shear_mod * (p.youngs_mod - 2 * p.shear_mod) / (3 * p.shear_mod - p.youngs_mod)) + 2 * p.shear_mod := by
-      rw [e1]; positivity
-    refine ⟨IsoMaterial.of_mul ?_ ?_ ?_ ?_ ?_ ?_, ?_, ?_⟩ <;> first | trivial | assumption | linarith | ring1 | (fsimp <;> ring1))
+      ∧ BlakeModGE.shear_mod p = p.shear_mod ∧ BlakeModGE.youngs_mod p = p.youngs_mod :=
+  EPV.Blake.modGE_ok p h
 
 /-- pair (G, E): every other path of the traced call ends in `raise ValueError` -/
 theorem modGE_raise (p : BlakeModGE.P) (h : BlakeModGE.outcome p ≠ .ok) :
@@ -213,24 +158,8 @@ example : BlakeModGE.outcome { shear_mod := 25, youngs_mod := 125/2 } = .ok := b
 two supplied values -/
 theorem modGNu_ok (p : BlakeModGNu.P) (h : BlakeModGNu.outcome p = .ok) :
     IsoMaterial (BlakeModGNu.lame_mod p) (BlakeModGNu.shear_mod p) (BlakeModGNu.youngs_mod p) (BlakeModGNu.poisson_ratio p) (BlakeModGNu.bulk_mod p) (BlakeModGNu.long_mod p)
-      ∧ BlakeModGNu.shear_mod p = p.shear_mod ∧ BlakeModGNu.poisson_ratio p = p.poisson_ratio := by
-  epv_on_leaves (
-    simp only [epv_cond] at *
-    simp only [epv_leaf]
-    simp only [not_le, not_lt] at *
-    have hG : 0 < p.shear_mod := by linarith
-    have h1p : 0 < 1 - 2 * p.poisson_ratio := by linarith
-    have h1 : 1 - 2 * p.poisson_ratio ≠ 0 := ne_of_gt h1p
-    have hn : 0 < 1 + p.poisson_ratio := by linarith
-    have e1 : 3 * (2 * p.shear_mod * p.poisson_ratio / (1 - 2 * p.poisson_ratio)) + 2 * p.shear_mod
-        = 2 * p.shear_mod * (1 + p.poisson_ratio) / (1 - 2 * p.poisson_ratio) := by fsimp; ring1
-    have e2 : 2 * p.shear_mod * p.poisson_ratio / (1 - 2 * p.poisson_ratio) + p.shear_mod
-        = p.shear_mod / (1 - 2 * p.poisson_ratio) := by fsimp; ring1
-    have h2 : 2 * p.shear_mod * p.poisson_ratio / (1 - 2 * p.poisson_ratio) + p.shear_mod ≠ 0 := by
-      rw [e2]; positivity
-    have h3 : 0 < 3 * (2 * p.shear_mod * p.poisson_ratio / (1 - 2 * p.poisson_ratio)) + 2 * p.shear_mod := by
-      rw [e1]; positivity
-    refine ⟨IsoMaterial.of_mul ?_ ?_ ?_ ?_ ?_ ?_, ?_, ?_⟩ <;> first | trivial | assumption | linarith | ring1 | (fsimp <;> ring1))
+      ∧ BlakeModGNu.shear_mod p = p.shear_mod ∧ BlakeModGNu.poisson_ratio p = p.poisson_ratio :=
+  EPV.Blake.modGNu_ok p h
 
 /-- pair (G, ν): every other path of the traced call ends in `raise ValueError` -/
 theorem modGNu_raise (p : BlakeModGNu.P) (h : BlakeModGNu.outcome p ≠ .ok) :
@@ -247,14 +176,8 @@ example : BlakeModGNu.outcome { shear_mod := 25, poisson_ratio := 1/4 } = .ok :=
 two supplied values -/
 theorem modGK_ok (p : BlakeModGK.P) (h : BlakeModGK.outcome p = .ok) :
     IsoMaterial (BlakeModGK.lame_mod p) (BlakeModGK.shear_mod p) (BlakeModGK.youngs_mod p) (BlakeModGK.poisson_ratio p) (BlakeModGK.bulk_mod p) (BlakeModGK.long_mod p)
-      ∧ BlakeModGK.shear_mod p = p.shear_mod ∧ BlakeModGK.bulk_mod p = p.bulk_mod := by
-  epv_on_leaves (
-    simp only [epv_cond] at *
-    simp only [epv_leaf]
-    simp only [not_le, not_lt] at *
-    have h1 : 0 < 3 * p.bulk_mod + p.shear_mod := by linarith
-    have h2 : 0 < 6 * p.bulk_mod + 2 * p.shear_mod := by linarith
-    refine ⟨IsoMaterial.of_mul ?_ ?_ ?_ ?_ ?_ ?_, ?_, ?_⟩ <;> first | trivial | assumption | linarith | ring1 | (fsimp <;> ring1))
+      ∧ BlakeModGK.shear_mod p = p.shear_mod ∧ BlakeModGK.bulk_mod p = p.bulk_mod :=
+  EPV.Blake.modGK_ok p h
 
 /-- pair (G, K): every other path of the traced call ends in `raise ValueError` -/
 theorem modGK_raise (p : BlakeModGK.P) (h : BlakeModGK.outcome p ≠ .ok) :
@@ -271,32 +194,8 @@ example : BlakeModGK.outcome { shear_mod := 25, bulk_mod := 125/3 } = .ok := by
 two supplied values -/
 theorem modGM_ok (p : BlakeModGM.P) (h : BlakeModGM.outcome p = .ok) :
     IsoMaterial (BlakeModGM.lame_mod p) (BlakeModGM.shear_mod p) (BlakeModGM.youngs_mod p) (BlakeModGM.poisson_ratio p) (BlakeModGM.bulk_mod p) (BlakeModGM.long_mod p)
-      ∧ BlakeModGM.shear_mod p = p.shear_mod ∧ BlakeModGM.long_mod p = p.long_mod := by
-  epv_on_leaves (
-    simp only [epv_cond] at *
-    simp only [epv_leaf]
-    simp only [not_le, not_lt] at *
-    have hG : 0 < p.shear_mod := by linarith
-    have hne : p.long_mod - p.shear_mod ≠ 0 := by
-      intro h0
-      have hh := ‹_ < |p.long_mod - p.shear_mod|›
-      rw [h0, abs_zero] at hh
-      have : (0 : ℝ) ≤ 0 + 3961408125713217 / 39614081257132168796771975168 * |p.shear_mod| := by positivity
-      linarith
-    have hgt : p.shear_mod < p.long_mod := by
-      rcases lt_or_gt_of_ne hne with hlt | hgt
-      · exfalso
-        have hneg : 2 * p.long_mod - 2 * p.shear_mod < 0 := by linarith
-        have := (div_lt_iff_of_neg hneg).mp ‹_ < (1:ℝ) / 2›
-        linarith
-      · linarith
-    have hpos : 0 < 2 * p.long_mod - 2 * p.shear_mod := by linarith
-    have h34 : 0 < 3 * p.long_mod - 4 * p.shear_mod := by
-      have := (lt_div_iff₀ hpos).mp ‹(-1 : ℝ) < _›
-      linarith
-    have h1 : 2 * p.long_mod - 2 * p.shear_mod ≠ 0 := ne_of_gt hpos
-    have h2 : p.long_mod - 2 * p.shear_mod + p.shear_mod ≠ 0 := by intro h0; linarith
-    refine ⟨IsoMaterial.of_mul ?_ ?_ ?_ ?_ ?_ ?_, ?_, ?_⟩ <;> first | trivial | assumption | linarith | ring1 | (fsimp <;> ring1))
+      ∧ BlakeModGM.shear_mod p = p.shear_mod ∧ BlakeModGM.long_mod p = p.long_mod :=
+  EPV.Blake.modGM_ok p h
 
 /-- pair (G, M): every other path of the traced call ends in `raise ValueError` -/
 theorem modGM_raise (p : BlakeModGM.P) (h : BlakeModGM.outcome p ≠ .ok) :
@@ -313,30 +212,8 @@ example : BlakeModGM.outcome { shear_mod := 25, long_mod := 75 } = .ok := by
 two supplied values -/
 theorem modENu_ok (p : BlakeModENu.P) (h : BlakeModENu.outcome p = .ok) :
     IsoMaterial (BlakeModENu.lame_mod p) (BlakeModENu.shear_mod p) (BlakeModENu.youngs_mod p) (BlakeModENu.poisson_ratio p) (BlakeModENu.bulk_mod p) (BlakeModENu.long_mod p)
-      ∧ BlakeModENu.youngs_mod p = p.youngs_mod ∧ BlakeModENu.poisson_ratio p = p.poisson_ratio := by
-  epv_on_leaves (
-    simp only [epv_cond] at *
-    simp only [epv_leaf]
-    simp only [not_le, not_lt] at *
-    have hE : 0 < p.youngs_mod := by linarith
-    have h1p : 0 < 1 - 2 * p.poisson_ratio := by linarith
-    have h1 : 1 - 2 * p.poisson_ratio ≠ 0 := ne_of_gt h1p
-    have hn : 0 < 1 + p.poisson_ratio := by linarith
-    have hn0 : 1 + p.poisson_ratio ≠ 0 := ne_of_gt hn
-    have e1 : 3 * (p.youngs_mod * p.poisson_ratio / ((1 + p.poisson_ratio) * (1 - 2 * p.poisson_ratio)))
-          + 2 * (1 / 2 * p.youngs_mod / (1 + p.poisson_ratio))
-        = p.youngs_mod / (1 - 2 * p.poisson_ratio) := by fsimp; ring1
-    have e2 : p.youngs_mod * p.poisson_ratio / ((1 + p.poisson_ratio) * (1 - 2 * p.poisson_ratio))
-          + 1 / 2 * p.youngs_mod / (1 + p.poisson_ratio)
-        = p.youngs_mod / (2 * ((1 + p.poisson_ratio) * (1 - 2 * p.poisson_ratio))) := by fsimp; ring1
-    have h2 : p.youngs_mod * p.poisson_ratio / ((1 + p.poisson_ratio) * (1 - 2 * p.poisson_ratio))
-          + 1 / 2 * p.youngs_mod / (1 + p.poisson_ratio) ≠ 0 := by
-      rw [e2]; positivity
-    have h3 : 0 < 3 * (p.youngs_mod * p.poisson_ratio / ((1 + p.poisson_ratio) * (1 - 2 * p.poisson_ratio)))
-          + 2 * (1 / 2 * p.youngs_mod / (1 + p.poisson_ratio)) := by
-      rw [e1]; positivity
-    have h4 : 0 < 1 / 2 * p.youngs_mod / (1 + p.poisson_ratio) := by positivity
-    refine ⟨IsoMaterial.of_mul ?_ ?_ ?_ ?_ ?_ ?_, ?_, ?_⟩ <;> first | trivial | assumption | linarith | ring1 | (fsimp <;> ring1))
+      ∧ BlakeModENu.youngs_mod p = p.youngs_mod ∧ BlakeModENu.poisson_ratio p = p.poisson_ratio :=
+  EPV.Blake.modENu_ok p h
 
 /-- pair (E, ν): every other path of the traced call ends in `raise ValueError` -/
 theorem modENu_raise (p : BlakeModENu.P) (h : BlakeModENu.outcome p ≠ .ok) :
@@ -353,33 +230,8 @@ example : BlakeModENu.outcome { youngs_mod := 125/2, poisson_ratio := 1/4 } = .o
 two supplied values -/
 theorem modEK_ok (p : BlakeModEK.P) (h : BlakeModEK.outcome p = .ok) :
     IsoMaterial (BlakeModEK.lame_mod p) (BlakeModEK.shear_mod p) (BlakeModEK.youngs_mod p) (BlakeModEK.poisson_ratio p) (BlakeModEK.bulk_mod p) (BlakeModEK.long_mod p)
-      ∧ BlakeModEK.youngs_mod p = p.youngs_mod ∧ BlakeModEK.bulk_mod p = p.bulk_mod := by
-  epv_on_leaves (
-    simp only [epv_cond] at *
-    simp only [epv_leaf]
-    simp only [not_le, not_lt] at *
-    have hE : 0 < p.youngs_mod := by linarith
-    have hK : 0 < p.bulk_mod := by linarith
-    have h6K : 0 < 6 * p.bulk_mod := by linarith
-    have h9 : 0 < 9 * p.bulk_mod - p.youngs_mod := by
-      have := (lt_div_iff₀ h6K).mp ‹(-1 : ℝ) < _›
-      linarith
-    have h1 : 9 * p.bulk_mod - p.youngs_mod ≠ 0 := ne_of_gt h9
-    have hK0 : p.bulk_mod ≠ 0 := ne_of_gt hK
-    have e1 : 3 * (3 * p.bulk_mod * (3 * p.bulk_mod - p.youngs_mod) / (9 * p.bulk_mod - p.youngs_mod))
-          + 2 * (3 * p.bulk_mod * p.youngs_mod / (9 * p.bulk_mod - p.youngs_mod)) = 3 * p.bulk_mod := by
-      fsimp; ring1
-    have e2 : 3 * p.bulk_mod * (3 * p.bulk_mod - p.youngs_mod) / (9 * p.bulk_mod - p.youngs_mod)
-          + 3 * p.bulk_mod * p.youngs_mod / (9 * p.bulk_mod - p.youngs_mod)
-        = 9 * p.bulk_mod * p.bulk_mod / (9 * p.bulk_mod - p.youngs_mod) := by fsimp; ring1
-    have h2 : 3 * p.bulk_mod * (3 * p.bulk_mod - p.youngs_mod) / (9 * p.bulk_mod - p.youngs_mod)
-          + 3 * p.bulk_mod * p.youngs_mod / (9 * p.bulk_mod - p.youngs_mod) ≠ 0 := by
-      rw [e2]; positivity
-    have h3 : 0 < 3 * (3 * p.bulk_mod * (3 * p.bulk_mod - p.youngs_mod) / (9 * p.bulk_mod - p.youngs_mod))
-          + 2 * (3 * p.bulk_mod * p.youngs_mod / (9 * p.bulk_mod - p.youngs_mod)) := by
-      rw [e1]; positivity
-    have h4 : 0 < 3 * p.bulk_mod * p.youngs_mod / (9 * p.bulk_mod - p.youngs_mod) := by positivity
-    refine ⟨IsoMaterial.of_mul ?_ ?_ ?_ ?_ ?_ ?_, ?_, ?_⟩ <;> first | trivial | assumption | linarith | ring1 | (fsimp <;> ring1))
+      ∧ BlakeModEK.youngs_mod p = p.youngs_mod ∧ BlakeModEK.bulk_mod p = p.bulk_mod :=
+  EPV.Blake.modEK_ok p h
 
 /-- pair (E, K): every other path of the traced call ends in `raise ValueError` -/
 theorem modEK_raise (p : BlakeModEK.P) (h : BlakeModEK.outcome p ≠ .ok) :
@@ -396,34 +248,8 @@ example : BlakeModEK.outcome { youngs_mod := 125/2, bulk_mod := 125/3 } = .ok :=
 two supplied values -/
 theorem modEM_ok (p : BlakeModEM.P) (h : BlakeModEM.outcome p = .ok) :
     IsoMaterial (BlakeModEM.lame_mod p) (BlakeModEM.shear_mod p) (BlakeModEM.youngs_mod p) (BlakeModEM.poisson_ratio p) (BlakeModEM.bulk_mod p) (BlakeModEM.long_mod p)
-      ∧ BlakeModEM.youngs_mod p = p.youngs_mod ∧ BlakeModEM.long_mod p = p.long_mod := by
-  epv_on_leaves (
-    simp only [epv_cond] at *
-    simp only [epv_leaf]
-    simp only [not_le, not_lt] at *
-    have hE : 0 < p.youngs_mod := by linarith
-    have hM : 0 < p.long_mod := by linarith
-    have hx : 0 ≤ p.youngs_mod ^ (2 : ℕ) + 9 * p.long_mod ^ (2 : ℕ) - 10 * p.youngs_mod * p.long_mod := by linarith
-    generalize hS : (p.youngs_mod ^ (2 : ℕ) + 9 * p.long_mod ^ (2 : ℕ) - 10 * p.youngs_mod * p.long_mod) ^ ((1 : ℝ) / 2) = S at *
-    have hS0 : 0 ≤ S := hS ▸ rpow_half_nonneg _
-    have hS2 : S * S = p.youngs_mod ^ (2 : ℕ) + 9 * p.long_mod ^ (2 : ℕ) - 10 * p.youngs_mod * p.long_mod :=
-      hS ▸ rpow_half_mul_self hx
-    have hEM : 0 < p.youngs_mod * p.long_mod := mul_pos hE hM
-    have h4M : 0 < 4 * p.long_mod := by linarith
-    -- ν < 1/2  gives  S < 3M - E
-    have hlt : S < 3 * p.long_mod - p.youngs_mod := by
-      have h := ‹1 / 4 * (p.youngs_mod - p.long_mod + S) / p.long_mod < 1 / 2›
-      rw [div_lt_iff₀ hM] at h
-      linarith
-    have hG : 0 < 1 / 8 * (3 * p.long_mod + p.youngs_mod - S) := by linarith
-    have hB : 0 < 3 * p.long_mod - p.youngs_mod + S := by
-      by_contra hc
-      rw [not_lt] at hc
-      nlinarith
-    have h2 : 1 / 4 * (p.long_mod - p.youngs_mod + S) + 1 / 8 * (3 * p.long_mod + p.youngs_mod - S) ≠ 0 := by
-      intro h0; linarith
-    have hM0 : p.long_mod ≠ 0 := ne_of_gt hM
-    refine ⟨IsoMaterial.of_mul ?_ ?_ ?_ ?_ ?_ ?_, ?_, ?_⟩ <;> first | trivial | assumption | linarith | ring1 | (fsimp <;> ring1) | linear_combination (1 / 16 : ℝ) * hS2 | (rw [div_mul_eq_mul_div, div_eq_iff (ne_of_gt hM)]; linear_combination (1 / 16 : ℝ) * hS2))
+      ∧ BlakeModEM.youngs_mod p = p.youngs_mod ∧ BlakeModEM.long_mod p = p.long_mod :=
+  EPV.Blake.modEM_ok p h
 
 /-- pair (E, M): every other path of the traced call ends in `raise ValueError` -/
 theorem modEM_raise (p : BlakeModEM.P) (h : BlakeModEM.outcome p ≠ .ok) :
@@ -442,28 +268,8 @@ example : BlakeModEM.outcome { youngs_mod := 125/2, long_mod := 75 } = .ok := by
 two supplied values -/
 theorem modNuK_ok (p : BlakeModNuK.P) (h : BlakeModNuK.outcome p = .ok) :
     IsoMaterial (BlakeModNuK.lame_mod p) (BlakeModNuK.shear_mod p) (BlakeModNuK.youngs_mod p) (BlakeModNuK.poisson_ratio p) (BlakeModNuK.bulk_mod p) (BlakeModNuK.long_mod p)
-      ∧ BlakeModNuK.poisson_ratio p = p.poisson_ratio ∧ BlakeModNuK.bulk_mod p = p.bulk_mod := by
-  epv_on_leaves (
-    simp only [epv_cond] at *
-    simp only [epv_leaf]
-    simp only [not_le, not_lt] at *
-    have hK : 0 < p.bulk_mod := by linarith
-    have h1p : 0 < 1 - 2 * p.poisson_ratio := by linarith
-    have hn : 0 < 1 + p.poisson_ratio := by linarith
-    have hn0 : 1 + p.poisson_ratio ≠ 0 := ne_of_gt hn
-    have e1 : 3 * (3 * p.bulk_mod * p.poisson_ratio / (1 + p.poisson_ratio))
-          + 2 * (3 * p.bulk_mod * (1 - 2 * p.poisson_ratio) / (2 * (1 + p.poisson_ratio))) = 3 * p.bulk_mod := by
-      fsimp; ring1
-    have e2 : 3 * p.bulk_mod * p.poisson_ratio / (1 + p.poisson_ratio)
-          + 3 * p.bulk_mod * (1 - 2 * p.poisson_ratio) / (2 * (1 + p.poisson_ratio))
-        = 3 * p.bulk_mod / (2 * (1 + p.poisson_ratio)) := by fsimp; ring1
-    have h2 : 3 * p.bulk_mod * p.poisson_ratio / (1 + p.poisson_ratio)
-          + 3 * p.bulk_mod * (1 - 2 * p.poisson_ratio) / (2 * (1 + p.poisson_ratio)) ≠ 0 := by
-      rw [e2]; positivity
-    have h3 : 0 < 3 * (3 * p.bulk_mod * p.poisson_ratio / (1 + p.poisson_ratio))
-          + 2 * (3 * p.bulk_mod * (1 - 2 * p.poisson_ratio) / (2 * (1 + p.poisson_ratio))) := by
-      rw [e1]; positivity
-    refine ⟨IsoMaterial.of_mul ?_ ?_ ?_ ?_ ?_ ?_, ?_, ?_⟩ <;> first | trivial | assumption | linarith | ring1 | (fsimp <;> ring1))
+      ∧ BlakeModNuK.poisson_ratio p = p.poisson_ratio ∧ BlakeModNuK.bulk_mod p = p.bulk_mod :=
+  EPV.Blake.modNuK_ok p h
 
 /-- pair (ν, K): every other path of the traced call ends in `raise ValueError` -/
 theorem modNuK_raise (p : BlakeModNuK.P) (h : BlakeModNuK.outcome p ≠ .ok) :
@@ -480,29 +286,8 @@ example : BlakeModNuK.outcome { poisson_ratio := 1/4, bulk_mod := 125/3 } = .ok 
 two supplied values -/
 theorem modNuM_ok (p : BlakeModNuM.P) (h : BlakeModNuM.outcome p = .ok) :
     IsoMaterial (BlakeModNuM.lame_mod p) (BlakeModNuM.shear_mod p) (BlakeModNuM.youngs_mod p) (BlakeModNuM.poisson_ratio p) (BlakeModNuM.bulk_mod p) (BlakeModNuM.long_mod p)
-      ∧ BlakeModNuM.poisson_ratio p = p.poisson_ratio ∧ BlakeModNuM.long_mod p = p.long_mod := by
-  epv_on_leaves (
-    simp only [epv_cond] at *
-    simp only [epv_leaf]
-    simp only [not_le, not_lt] at *
-    have hM : 0 < p.long_mod := by linarith
-    have h1p : 0 < 1 - 2 * p.poisson_ratio := by linarith
-    have hn : 0 < 1 + p.poisson_ratio := by linarith
-    have hm : 0 < 1 - p.poisson_ratio := by linarith
-    have hm0 : 1 - p.poisson_ratio ≠ 0 := ne_of_gt hm
-    have e1 : 3 * (p.long_mod * p.poisson_ratio / (1 - p.poisson_ratio))
-          + 2 * (1 / 2 * p.long_mod * (1 - 2 * p.poisson_ratio) / (1 - p.poisson_ratio))
-        = p.long_mod * (1 + p.poisson_ratio) / (1 - p.poisson_ratio) := by fsimp; ring1
-    have e2 : p.long_mod * p.poisson_ratio / (1 - p.poisson_ratio)
-          + 1 / 2 * p.long_mod * (1 - 2 * p.poisson_ratio) / (1 - p.poisson_ratio)
-        = p.long_mod / (2 * (1 - p.poisson_ratio)) := by fsimp; ring1
-    have h2 : p.long_mod * p.poisson_ratio / (1 - p.poisson_ratio)
-          + 1 / 2 * p.long_mod * (1 - 2 * p.poisson_ratio) / (1 - p.poisson_ratio) ≠ 0 := by
-      rw [e2]; positivity
-    have h3 : 0 < 3 * (p.long_mod * p.poisson_ratio / (1 - p.poisson_ratio))
-          + 2 * (1 / 2 * p.long_mod * (1 - 2 * p.poisson_ratio) / (1 - p.poisson_ratio)) := by
-      rw [e1]; positivity
-    refine ⟨IsoMaterial.of_mul ?_ ?_ ?_ ?_ ?_ ?_, ?_, ?_⟩ <;> first | trivial | assumption | linarith | ring1 | (fsimp <;> ring1))
+      ∧ BlakeModNuM.poisson_ratio p = p.poisson_ratio ∧ BlakeModNuM.long_mod p = p.long_mod :=
+  EPV.Blake.modNuM_ok p h
 
 /-- pair (ν, M): every other path of the traced call ends in `raise ValueError` -/
 theorem modNuM_raise (p : BlakeModNuM.P) (h : BlakeModNuM.outcome p ≠ .ok) :
@@ -519,13 +304,8 @@ example : BlakeModNuM.outcome { poisson_ratio := 1/4, long_mod := 75 } = .ok := 
 two supplied values -/
 theorem modKM_ok (p : BlakeModKM.P) (h : BlakeModKM.outcome p = .ok) :
     IsoMaterial (BlakeModKM.lame_mod p) (BlakeModKM.shear_mod p) (BlakeModKM.youngs_mod p) (BlakeModKM.poisson_ratio p) (BlakeModKM.bulk_mod p) (BlakeModKM.long_mod p)
-      ∧ BlakeModKM.bulk_mod p = p.bulk_mod ∧ BlakeModKM.long_mod p = p.long_mod := by
-  epv_on_leaves (
-    simp only [epv_cond] at *
-    simp only [epv_leaf]
-    simp only [not_le, not_lt] at *
-    have h1 : 0 < 3 * p.bulk_mod + p.long_mod := by linarith
-    refine ⟨IsoMaterial.of_mul ?_ ?_ ?_ ?_ ?_ ?_, ?_, ?_⟩ <;> first | trivial | assumption | linarith | ring1 | (fsimp <;> ring1))
+      ∧ BlakeModKM.bulk_mod p = p.bulk_mod ∧ BlakeModKM.long_mod p = p.long_mod :=
+  EPV.Blake.modKM_ok p h
 
 /-- pair (K, M): every other path of the traced call ends in `raise ValueError` -/
 theorem modKM_raise (p : BlakeModKM.P) (h : BlakeModKM.outcome p ≠ .ok) :
